@@ -25,10 +25,11 @@ Definition vnonnegb (a : vec) : bool := vleb vzero a.
 
 Definition vsum (l : list vec) : vec := fold_right vadd vzero l.
 
+(* destruct every vector variable that has no body (let-bound ones are left alone) *)
 Ltac vdestruct :=
   repeat match goal with
-         | v : vec |- _ => destruct v as [? ?]
-         | v : (Z * Z)%type |- _ => destruct v as [? ?]
+         | v : (Z * Z)%type |- _ =>
+             tryif (let b := eval unfold v in v in idtac) then fail else destruct v as [? ?]
          end.
 
 Ltac vunfold :=
